@@ -172,7 +172,7 @@ spec
 rhs
 	: TOK_DATETIME {
 		ckv->d = dt_io_strpdt($<sval>1, ckv_fmt, ckv_nfmt, NULL);
-		if (ckv->d.typ == DT_UNK) {
+		if (dt_unk_p(ckv->d)) {
 			/* one more try */
 			ckv->d = dt_strpdt($<sval>1, NULL, NULL);
 		}
